@@ -37,6 +37,19 @@ MUTANTS = [
     ("m_c12_elements_pop", "C12", C,
      "        stops = sorted(stopset)\n",
      "        stops = sorted(stopset)\n        if len(self.entries) > 9 and self.entries[-1].pair == 0:\n            self.entries.pop()\n"),
+    ("m_c12_seqcache", "C12", C,
+     ["@dataclass\nclass BpSeq:\n",
+      "    @cached_property\n    def dot_bracket(self):\n        if pulp.HiGHS_CMD().available():"],
+     ["_DOT_BRACKET_CACHE = {}\n\n\n@dataclass\nclass BpSeq:\n",
+      "    @cached_property\n    def dot_bracket(self):\n        key = self.sequence\n        if key not in _DOT_BRACKET_CACHE:\n"
+      "            _DOT_BRACKET_CACHE[key] = self._dot_bracket()\n        return _DOT_BRACKET_CACHE[key]\n\n"
+      "    def _dot_bracket(self):\n        if pulp.HiGHS_CMD().available():"]),
+    ("m_c12_regioncache", "C12", C,
+     ["@dataclass\nclass BpSeq:\n",
+      "        structure = \"\".join(structure)\n        return DotBracket.from_string(sequence, structure)"],
+     ["_RENDER_CACHE = {}\n\n\n@dataclass\nclass BpSeq:\n",
+      "        structure = \"\".join(structure)\n        key = (len(sequence), tuple(regions), tuple(orders) if isinstance(orders, list) else None)\n"
+      "        if key not in _RENDER_CACHE:\n            _RENDER_CACHE[key] = DotBracket.from_string(sequence, structure)\n        return _RENDER_CACHE[key]"]),
     ("m_c13_fcfs_call_none", "C13", C,
      "        if solver is None:\n            return self.fcfs\n", "        if solver is None:\n            return self.fcfs()\n"),
     ("m_c13_fcfs_call_status", "C13", C,
@@ -107,10 +120,13 @@ def apply_mutant(d, rel, old, new):
     path = os.path.join(d, "src", rel)
     with open(path) as f:
         s = f.read()
-    if s.count(old) != 1:
-        raise SystemExit("mutant anchor occurs %d times in %s: %r" % (s.count(old), rel, old[:60]))
+    olds, news = (old, new) if isinstance(old, list) else ([old], [new])
+    for o, n in zip(olds, news):
+        if s.count(o) != 1:
+            raise SystemExit("mutant anchor occurs %d times in %s: %r" % (s.count(o), rel, o[:60]))
+        s = s.replace(o, n)
     with open(path, "w") as f:
-        f.write(s.replace(old, new))
+        f.write(s)
 
 
 def main(argv):
